@@ -1,4 +1,4 @@
-// GENERATED on every run by vlib/extract.py from /tmp/seedcheck-19392 -- do not edit
+// GENERATED on every run by vlib/extract.py from /tmp/rp -- do not edit
 #![allow(unused_imports, unused_variables, unused_mut, dead_code, unused_parens, unused_braces, non_snake_case)]
 use vstd::prelude::*;
 use core::cmp::Ordering;
@@ -716,7 +716,7 @@ pub fn subpath(&self) -> (r: Option<&str>)
             self.parts.subpath@.len() > 0 ==> r is Some && r->Some_0@ == self.parts.subpath@
 { unimplemented!() }
 }
-// ---- unit U-fmt.fmt  <= purl/src/format.rs:33 ----
+// ---- unit U-fmt.fmt  <= purl/src/format.rs:34 ----
 #[verifier::loop_isolation(false)]
 pub fn purl_fmt<T: PurlShape>(this: &GenericPurl<T>, f: &mut Formatter) -> (r: FmtResult)
     requires valid_type(this.package_type.type_text())      // documented panic: a user type reporting an invalid type string
